@@ -42,16 +42,16 @@ var ruleSets = map[string]func(a *Analyzer, r *Results){
 
 // which rule sets each property needs
 var propSets = map[string][]string{
-	"C01": {"prim", "r3", "more", "ingest", "proof", "c06", "c18"},
+	"C01": {"prim", "r3", "more", "ingest", "proof", "c06", "c18", "setters"},
 	"C02": {"prim", "r3", "c02", "c12", "c20", "c06", "c18"},
 	"C03": {"prim", "r3", "ingest", "c20", "c02", "c06"},
 	"C04": {"prim", "more", "ingest", "proof", "r3"},
 	"C05": {"r3", "more", "ingest", "chan", "loops", "setters", "c19f", "c20", "registry", "proof", "prim"},
 	"C06": {"prim", "c06", "c18", "r3"},
-	"C07": {"prim", "r3", "more", "ingest", "proof", "c20"},
+	"C07": {"prim", "r3", "more", "ingest", "proof", "c20", "c06"},
 	"C08": {"prim", "r3", "more", "ingest", "proof", "c17"},
 	"C09": {"prim", "r3", "more", "ingest", "c20", "proof"},
-	"C10": {"prim", "r3", "ingest", "setters", "c20", "c17", "more"},
+	"C10": {"prim", "r3", "ingest", "setters", "c20", "c17", "more", "c06"},
 	"C11": {"prim", "r3", "more", "ingest", "proof", "c20"},
 	"C12": {"r3", "more", "c12", "c18", "locks", "ingest", "loops", "spawn", "chan", "registry", "proof", "timer"},
 	"C13": {"prim", "r3", "more", "ingest", "setters", "locks", "registry", "loops", "c17"},
